@@ -28,6 +28,11 @@ use weechess_engine::searcher::{ControlEvent, SearchArtifact, Searcher, StatusEv
 
 pub const NODE_BOUND: u64 = 100_000;
 pub const ITER_BOUND: u64 = 1_000;
+/// quiescence nodes one pool thread may enter after Cancel fired (they are neither counted nor
+/// polled by the engine; see known finding F11)
+pub const QNODE_BOUND: u64 = 3_000_000;
+pub const EXPLOSIVE_FEN: &str = "rBq1k2r/5p2/1p1n1K2/N2bbpRR/1bN3pB/R1N2Rr1/1b4P1/R5rR w q - 43 65";
+pub const QSIG: &str = "stop-ignored-in-quiescence|Searcher::quiescence_search";
 pub const STALL_S: f64 = 6.0;
 pub const OUTER_S: f64 = 150.0;
 
@@ -219,13 +224,19 @@ pub fn run_case(case: &Case, ev: &Evaluator, ctx: &Ctx, rep: &mut Report) -> Ver
         if handle.is_finished() {
             break;
         }
-        let n = srch::NODES.load(Relaxed);
+        let n = srch::NODES.load(Relaxed) + srch::QNODES.load(Relaxed);
         if n != last_nodes {
             last_nodes = n;
             last_change = Instant::now();
         }
         let after = srch::MAX_THREAD_NODES_AFTER_CANCEL.load(Relaxed);
+        let qafter = srch::MAX_THREAD_QNODES_AFTER_CANCEL.load(Relaxed);
         let panics = util::panics_since(mark);
+        if qafter > QNODE_BOUND {
+            // keyed by call site, not by input: every position with a large enough capture tree fails alike
+            rep.violation("stop-ignored-in-quiescence", QSIG, &format!("a pool thread entered {} quiescence nodes after Cancel fired (bound {}) without polling the token; root {}", qafter, QNODE_BOUND, case.fen), replay);
+            return Verdict::Fatal;
+        }
         let fatal = if after > NODE_BOUND {
             Some(("stop-ignored", format!("a pool thread entered {} nodes after Cancel fired (bound {}) and the search has not returned", after, NODE_BOUND)))
         } else if progress_after_cancel > ITER_BOUND {
@@ -267,6 +278,8 @@ pub fn run_case(case: &Case, ev: &Evaluator, ctx: &Ctx, rep: &mut Report) -> Ver
     }
     let after = srch::MAX_THREAD_NODES_AFTER_CANCEL.load(SeqCst);
     rep.max("max_thread_nodes_after_cancel", after);
+    rep.max("max_thread_quiescence_nodes_after_cancel", srch::MAX_THREAD_QNODES_AFTER_CANCEL.load(SeqCst));
+    rep.count("quiescence_nodes", srch::QNODES.load(SeqCst));
     rep.max("max_iterations_after_cancel", progress_after_cancel);
     rep.count("nodes", srch::NODES.load(SeqCst));
     let panics = util::panics_since(mark);
@@ -464,6 +477,18 @@ pub fn run(ctx: &Ctx, rep: &mut Report) {
         }
         return;
     }
+    if ctx.mode == "quiescence" {
+        // the listed input of known finding F11: Stop during an exploding capture search
+        let case = Case { fen: EXPLOSIVE_FEN.into(), depth: Some(1), seed: 1, tables: 8, buckets: 1024, hasher_seed: 1, stops: vec![1], stop_after: false, drop_rx_after: None, followup_depth: 1 };
+        match run_case(&case, &ev, ctx, rep) {
+            Verdict::Ok(_) => rep.note("the listed quiescence explosion did not exceed the bound on this tree"),
+            _ => {
+                rep.write(ctx);
+                std::process::exit(if rep.violation_count > 0 { 1 } else { 2 });
+            }
+        }
+        return;
+    }
     let mut n = ctx.n(2_500, 200_000);
     let kinds = ["stop", "stop", "depth", "terminal", "bounded", "sparse", "stop", "sync"];
     let mut k = 0usize;
@@ -524,12 +549,17 @@ fn sync_scenario(sc: &crate::scenario::Scenario, ev: &Evaluator, ctx: &Ctx, rep:
     let t0 = Instant::now();
     while !h.is_finished() {
         std::thread::sleep(Duration::from_millis(10));
-        let n = srch::NODES.load(Relaxed);
+        let n = srch::NODES.load(Relaxed) + srch::QNODES.load(Relaxed);
         if n != last_nodes {
             last_nodes = n;
             last_change = Instant::now();
         }
         let after = srch::MAX_THREAD_NODES_AFTER_CANCEL.load(Relaxed);
+        if srch::MAX_THREAD_QNODES_AFTER_CANCEL.load(Relaxed) > QNODE_BOUND {
+            rep.violation("stop-ignored-in-quiescence", QSIG, &format!("quiescence nodes after Cancel exceed {}; root {}", QNODE_BOUND, step.fen), replay);
+            rep.write(ctx);
+            std::process::exit(1);
+        }
         if after > NODE_BOUND {
             rep.violation("stop-ignored", &format!("stop-ignored|{}", sig), &format!("a pool thread entered {} nodes after Cancel fired and the search has not returned", after), replay);
             rep.write(ctx);
